@@ -51,6 +51,17 @@ CHECKS = {
          'or in the unit-mismatch TypeError; all operators x configurations x catalogue operand pairs are evaluated wrapped and raw on the real code and TLC judges the outcome tokens.',
     ref='DESIGN.md 5/C20', technique='TLA+ spec QtyOps + TLC model check of the dispatch machine (and faulty variants); TLC validation of all operator/operand outcomes',
     note='the arithmetic itself is Python on both sides; BasicQuantity only (pint mode out of scope)'),
+
+ 'C01': dict(
+    text='Grids built from TLC layout plans (spec/Layout.tla: every kind x position x version, every ordered kind pair, multi-grid documents) and a boundary payload catalogue are dumped '
+         'and parsed by hszinc; TLC judges Abs(parse(dump(g))) = Abs(g) with the structural equality of Trace_Zinc.tla (kind-strict, ordered metadata/columns, exact numbers as normalised decimals).',
+    ref='DESIGN.md 5/C01', technique='TLA+ layout plan generation (TLC) + TLC-judged structural equality of abstract documents; reader machine ZincRead.tla as cross-check',
+    note='Haystack-valid domain of DESIGN.md section 5; floats compared through their shortest round-trip decimal'),
+ 'C04': dict(
+    text='The characters hszinc emits are the trace: every dumped document is run, code point by code point, through the strict reader machine spec/ZincRead.tla (written from the ZINC grammar, '
+         'sharing nothing with hszinc) which must accept it and read back exactly Abs(g).',
+    ref='DESIGN.md 5/C04, Appendix A', technique='TLA+ character-level reader machine ZincRead (strict mode) executed by TLC over hszinc\'s output; layout plans generated by TLC',
+    note='the strict reader accepts the spellings pinned by the repository\'s dumper tests (hex(..)/b64(..) lower-case types, {marker:M}); grid domain as C01'),
 }
 NOT_YET = {}
 
